@@ -252,7 +252,7 @@ theorem decodeP_noPanic : ∀ (ty : Ty), widthsOk ty = true → NoPanic (decodeP
     exact noPanic_pure _
   | .enum idxs ts, h => by
     simp only [decodeP]
-    exact noPanic_readByte (fun b => decodeVariant_noPanic idxs ts b.toNat (by simpa [widthsOk] using h))
+    exact noPanic_readByte (fun b => decodeVariant_noPanic idxs ts b.toNat (by simp [widthsOk] at h; exact h.2))
 
 theorem decodeList_noPanic : ∀ (ts : List Ty), widthsOk.widthsOkList ts = true → NoPanic (decodeList ts)
   | [], _ => by simp only [decodeList]; exact noPanic_pure _
